@@ -14,8 +14,28 @@ use vcore::json::J;
 use vcore::rng::{mix, Rng};
 use vcore::surface::{OpKind, ALL_OPS};
 
-fn case_for(seed: u64, idx: u64, max_n: usize) -> Case {
+/// Every 8th case is large (up to `big_n` generators): thresholds on the number
+/// of cells and real contention between many workers need it. Large cases only
+/// run the two cheapest ops.
+fn is_big(idx: u64) -> bool {
+    idx % 8 == 5
+}
+
+fn case_for(seed: u64, idx: u64, max_n: usize, big_n: usize) -> Case {
     let mut rng = Rng::new(mix(seed, idx, 0xE3));
+    if is_big(idx) {
+        let n = 300 + rng.below((big_n.max(301) - 300) as u64) as usize;
+        let mut c = gen_case(
+            &mut rng,
+            &GenLimits {
+                max_n: n,
+                min_n: n * 3 / 4,
+                ..Default::default()
+            },
+        );
+        c.family = format!("big:{}", c.family);
+        return c;
+    }
     gen_case(
         &mut rng,
         &GenLimits {
@@ -23,6 +43,24 @@ fn case_for(seed: u64, idx: u64, max_n: usize) -> Case {
             ..Default::default()
         },
     )
+}
+
+/// Two callers at once, each in a pool of its own (or both in the global pool).
+fn run_two_callers(case: &Case, op: OpKind, threads: usize) -> (Outcome, Outcome) {
+    if threads == 0 {
+        return std::thread::scope(|s| {
+            let a = s.spawn(|| s_real::run_op(case, op));
+            let b = s.spawn(|| s_real::run_op(case, op));
+            (a.join().expect("caller"), b.join().expect("caller"))
+        });
+    }
+    let mk = || rayon::ThreadPoolBuilder::new().num_threads(threads).build().expect("pool");
+    let (p1, p2) = (mk(), mk());
+    std::thread::scope(|s| {
+        let a = s.spawn(|| p1.install(|| s_real::run_op(case, op)));
+        let b = s.spawn(|| p2.install(|| s_real::run_op(case, op)));
+        (a.join().expect("caller"), b.join().expect("caller"))
+    })
 }
 
 fn fresh<T: Send>(f: impl FnOnce() -> T + Send) -> T {
@@ -86,6 +124,9 @@ pub fn cmd_e3(args: &Args) -> i32 {
         .filter_map(|s| s.parse().ok())
         .collect();
     let seq_only = args.flag("seq-only");
+    let big_n = args.u64("big-n", 4000) as usize;
+    let mut big_cases = 0u64;
+    let mut two_caller_evals = 0u64;
     let _ = std::fs::create_dir_all(&out);
     let t0 = Instant::now();
     let mut evals = 0u64;
@@ -98,7 +139,7 @@ pub fn cmd_e3(args: &Args) -> i32 {
             break;
         }
         let idx = start + k * stride;
-        let base = case_for(seed, idx, max_n);
+        let base = case_for(seed, idx, max_n, big_n);
         cases += 1;
         let _ = std::fs::write(format!("{}/e3_shard_{}.progress", out, shard), format!("{}\n", idx));
         // a long-lived process calls the library with related inputs on the same
@@ -111,10 +152,48 @@ pub fn cmd_e3(args: &Args) -> i32 {
                 break;
             }
             let case = case.clone();
+            let big = is_big(idx);
+            if big && step == 0 {
+                big_cases += 1;
+            }
             for op in ALL_OPS {
+            if big && !matches!(op, OpKind::Build | OpKind::FaceIntegralsSym) {
+                continue;
+            }
             let r = fresh(|| s_seq::run_op(&case, *op));
             if seq_only {
                 continue;
+            }
+            // two simultaneous callers (global pool, and two pools of 4)
+            if step == 0 {
+                for &t in &[0usize, 4] {
+                    let (a, b) = run_two_callers(&case, *op, t);
+                    two_caller_evals += 2;
+                    evals += 2;
+                    for o in [a, b] {
+                        if let Some((comp, x, y)) = o.first_diff(&r) {
+                            let mut j = replay_json(seed, idx, &case, *op, t, &comp, &x, &y);
+                            j.put("two_callers", J::Bool(true));
+                            let path = crate::write_replay(&replay_dir, &format!("C09-E3-{}-{}.json", seed, idx), &j);
+                            println!(
+                                "E3-VIOLATION property=C09 case={} op={} threads={} component=two_callers:{} replay={}",
+                                idx,
+                                op.name(),
+                                t,
+                                comp,
+                                path
+                            );
+                            viol = J::obj()
+                                .set("case_index", J::u(idx))
+                                .set("op", J::s(op.name()))
+                                .set("threads", J::u(t as u64))
+                                .set("component", J::s(&comp))
+                                .set("replay", J::s(&path));
+                            code = 1;
+                            break 'outer;
+                        }
+                    }
+                }
             }
             for &t in &pools {
                 // twice: repeated calls in one process must agree too
@@ -153,6 +232,8 @@ pub fn cmd_e3(args: &Args) -> i32 {
         .set("rayon_num_threads_env", J::s(&std::env::var("RAYON_NUM_THREADS").unwrap_or_default()))
         .set("global_pool_threads", J::u(rayon::current_num_threads() as u64))
         .set("cases", J::u(cases))
+        .set("big_cases", J::u(big_cases))
+        .set("two_caller_evaluations", J::u(two_caller_evals))
         .set("evaluations", J::u(evals))
         .set(
             "by_local_pool",
@@ -182,9 +263,19 @@ pub fn replay(j: &J, path: &str, args: &Args) -> i32 {
     };
     let threads = j.get("threads").and_then(|t| t.as_u64()).unwrap_or(0) as usize;
     let reps = args.u64("reps", 200);
+    let two = j.get("two_callers").and_then(|b| b.as_bool()).unwrap_or(false);
     let r = s_seq::run_op(&case, op);
     for i in 0..reps {
-        let o = run_real_in_pool(&case, op, threads);
+        let o = if two {
+            let (a, b) = run_two_callers(&case, op, threads);
+            if a.first_diff(&r).is_some() {
+                a
+            } else {
+                b
+            }
+        } else {
+            run_real_in_pool(&case, op, threads)
+        };
         if let Some((comp, a, b)) = o.first_diff(&r) {
             println!("replayed (attempt {}): component={} digest_real={} digest_ref={}", i, comp, a, b);
             println!("VIOLATION property=C09 replay={}", path);
